@@ -761,9 +761,8 @@ def execute_cross_file(ctx, case):
     ok = True
     for tag in ("a", "b"):
         path, url, recs = files[tag]
-        what = "%s file whose field 'ts' is %s, read %s another file in which 'ts' is %s" % (
-            adapter, "datetime" if tag == "a" else other, "after" if tags.index(tag) == 1 else "before", other if tag == "a" else "datetime")
-        d = dict(detail, file=tag)
+        what = "%s file read next to a file in which the same field name has another type" % adapter
+        d = dict(detail, file=tag, this_file_ts="datetime" if tag == "a" else other, read="second" if tags.index(tag) == 1 else "first")
         if tag in errs or "open" in errs:
             e = errs.get(tag) or errs.get("open")
             if alone[tag] is not None and alone[tag][0] == "ERROR":
@@ -810,3 +809,212 @@ def _close(rd):
             rd.con.close()
     except Exception:  # noqa: BLE001
         pass
+
+
+# ---- reader usage, name / content mismatch, template writers (round 8) -------------------------------------------------------
+def execute_reader_usage(ctx, case):
+    """One reader consumed in pieces (peek then loop, islice batches, break then resume, handled exception then resume):
+    every record exactly once, in order - for every container whose reader continues where it stopped (HEAD: stream, avro,
+    jsonfile, csvfile; the sqlite reader starts over on every iteration and is left out)."""
+    from flow.record import RecordDescriptor, RecordReader, RecordWriter
+
+    from . import avro_c19 as am
+
+    c = _c11()
+    codec, container, pattern = case["codec"], case["container"], case["pattern"]
+    rng = random.Random(case["s"])
+    n = rng.choice([1, 2, 5, 40] if case["size"] == "small" else [400, 1500])
+    ctx.ev()
+    if container in ("stream", "avro"):
+        records = c.sized_records(container, case["s"] + 2, n)
+        path, url = c.cell_path(ctx, codec, container, "ru")
+    else:
+        desc = RecordDescriptor("usage/text", [("string", "s"), ("varint", "v")])
+        records = [desc.recordType(s="v%d" % i, v=i) for i in range(n)]
+        path = c.tmp_name(ctx, "ru", container)
+        url = path
+    before = [observe.normalise(observe.obs(r)) for r in records]
+    w = RecordWriter(url)
+    try:
+        for r in records:
+            w.write(r)
+    finally:
+        w.flush()
+        w.close()
+    detail = {"codec": codec, "container": container, "pattern": pattern, "records": len(records)}
+    via = case.get("via", "path")
+    fh = None
+    rd = None
+    try:
+        if via == "path":
+            rd = RecordReader(url)
+        else:
+            fh = open(path, "rb")
+            rd = RecordReader(fileobj=fh)
+        got, err = am.usage_read(rd, pattern, rng, len(records)), None
+    except Exception as e:  # noqa: BLE001
+        got, err = [], e
+    finally:
+        _close(rd) if rd is not None else None
+        if fh is not None:
+            fh.close()
+        c._rm(path)
+    what = "one reader consumed in pieces (%s)" % pattern
+    if err is not None:
+        ctx.violation(None, "%s raised %s" % (what, type(err).__name__), detail=dict(detail, exception=repr(err)[:300]))
+    elif container in ("stream", "avro"):
+        if c.compare(ctx, container, records, before, got, what, detail):
+            ctx.cell("reader-usage", codec, container, pattern)
+    else:
+        have = [(str.__str__(r.s), int(r.v)) for r in got]
+        if have != [("v%d" % i, i) for i in range(len(records))]:
+            ctx.violation(None, "%s does not give every record exactly once in order" % what, detail=dict(detail, read=len(have), first=have[:5]))
+        else:
+            ctx.cell("reader-usage", codec, container, pattern)
+    ctx.event("reader_usage_histories")
+    ctx.nontrivial("reader-usage", codec, container, pattern, case["size"], via, case["s"])
+
+
+class NamedBytesIO(io.BytesIO):
+    """In-memory file object that carries a .name, as objects from tarfile / zipfile / http responses do."""
+
+    def __init__(self, data, name):
+        super().__init__(data)
+        self.name = name
+
+
+def execute_name_mismatch(ctx, case):
+    """A file object whose NAME says one codec (or none) and whose CONTENT is another: the content decides."""
+    from flow.record import RecordReader, RecordWriter
+
+    c = _c11()
+    content, name_ext, container = case["content"], case["name_ext"], case["container"]
+    records = c.sized_records(container, case["s"] + 4, random.Random(case["s"]).choice([2, 30, 300]))
+    ctx.ev()
+    before = [observe.normalise(observe.obs(r)) for r in records]
+    path, url = c.cell_path(ctx, content, container, "mm")
+    w = RecordWriter(url)
+    try:
+        for r in records:
+            w.write(r)
+    finally:
+        w.flush()
+        w.close()
+    with open(path, "rb") as f:
+        data = f.read()
+    c._rm(path)
+    misnamed = c.tmp_name(ctx, "misnamed", (".records" if container == "stream" else ".avro") + name_ext)
+    with open(misnamed, "wb") as f:
+        f.write(data)
+    detail = {"content_codec": content, "name_extension": name_ext or "(none)", "container": container, "records": len(records)}
+    ok = True
+    for route in ("buffered", "raw", "named-bytesio"):
+        if route == "buffered":
+            fh = open(misnamed, "rb")
+        elif route == "raw":
+            fh = io.FileIO(misnamed, "r")
+        else:
+            fh = NamedBytesIO(data, "archive/member" + name_ext)
+        try:
+            rd, got, err = c.drain(lambda: RecordReader(fileobj=fh))
+        finally:
+            try:
+                fh.close()
+            except Exception:  # noqa: BLE001
+                pass
+        what = "file object whose name and content disagree, via %s" % route
+        d = dict(detail, naming=route)
+        ctx.event("name_mismatch_reads:" + route)
+        if err is not None:
+            ctx.violation(None, "%s: reading raised %s" % (what, type(err).__name__), detail=dict(d, exception=repr(err)[:300], records_before_error=len(got)))
+            ok = False
+            continue
+        if not c.reader_class_ok(rd, container):
+            ctx.violation(None, "%s: RecordReader returned %s" % (what, type(rd).__name__), detail=d)
+            ok = False
+        if not c.compare(ctx, container, records, before, got, what, d):
+            ok = False
+    c._rm(misnamed)
+    if ok:
+        ctx.cell("name-mismatch", content, name_ext or "none", container)
+    ctx.nontrivial("name-mismatch", content, name_ext, container)
+
+
+def execute_template_writer(ctx, case):
+    """PathTemplateWriter / RecordArchiver put every hour into its own *.records.<codec> file.  After close() - the writer
+    object still referenced - every file produced must be a COMPLETE file of its codec (independent decompressor, CLI -t),
+    hold a record stream, and all files together hold exactly the records written (each file readable by path)."""
+    import datetime as dt
+    import shutil
+
+    from flow.record import PathTemplateWriter, RecordArchiver, RecordDescriptor, RecordReader
+
+    c = _c11()
+    codec, cls_name, shape = case["codec"], case["cls"], case["shape"]
+    rng = random.Random(case["s"])
+    ctx.ev()
+    desc = RecordDescriptor("template/test", [("varint", "n"), ("string", "s")])
+    base = dt.datetime(2024, 5, 17, 10, 5, tzinfo=dt.timezone.utc)
+    hours = {"two-hours": [0, 0, 0, 1, 1, 1], "three-hours": [0, 1, 1, 2, 2, 2, 2], "back-and-forth": [0, 1, 0, 1, 2, 0],
+             "many": [i // 4 for i in range(24)]}[shape]
+    records = [desc.recordType(n=i, s="payload-%d " % i * rng.choice([1, 10, 200]), _generated=base + dt.timedelta(hours=h, minutes=i % 50))
+               for i, h in enumerate(hours)]
+    root = c.tmp_name(ctx, "tw", ".d")
+    os.mkdir(root)
+    ext = ".records" + ("" if codec == "none" else "." + codec)
+    detail = {"codec": codec, "writer": cls_name, "shape": shape, "records": len(records)}
+    what = "%s output" % cls_name
+    try:
+        if cls_name == "RecordArchiver":
+            writer = RecordArchiver(root, path_template="{name}-{ts:%Y%m%dT%H}" + ext, name="arch")
+        else:
+            writer = PathTemplateWriter(os.path.join(root, "sub", "{name}-{record._generated:%Y%m%dT%H}" + ext), name="tmpl")
+        for r in records:
+            writer.write(r)
+        writer.close()
+    except Exception as e:  # noqa: BLE001
+        ctx.violation(None, "%s: writing raised %s" % (what, type(e).__name__), detail=dict(detail, exception=repr(e)[:300]))
+        shutil.rmtree(root, ignore_errors=True)
+        return
+    # the writer object stays referenced until every check is done
+    files = sorted(os.path.join(dp, fn) for dp, _, fns in os.walk(root) for fn in fns)
+    seen = []
+    ok = True
+    for path in files:
+        with open(path, "rb") as f:
+            raw = f.read()
+        d = dict(detail, file=os.path.relpath(path, root), file_bytes=len(raw))
+        payload = raw
+        if codec != "none":
+            if raw[:len(c.CODEC_MAGIC[codec])] != c.CODEC_MAGIC[codec]:
+                ctx.violation(None, "%s: a file does not start with the magic of its codec extension" % what, detail=dict(d, leading=raw[:8].hex()))
+                ok = False
+            try:
+                payload = c.independent_decompress(codec, raw)
+                ctx.event("independent_decompress_ok:" + codec)
+            except Exception as e:  # noqa: BLE001
+                ctx.violation(None, "%s: after close() an independent decompressor rejects a file (incomplete %s stream)" % (what, codec),
+                              detail=dict(d, exception=repr(e)[:300]))
+                ok = False
+                payload = None
+            good, msg = c.cli_test(ctx, codec, path)
+            if good is False:
+                ctx.violation(None, "%s: after close() the codec's command line tool rejects a file" % what, detail=dict(d, stderr=msg))
+                ok = False
+        if payload is not None and c.STREAM_MAGIC not in payload[:19]:
+            ctx.violation(None, "%s: a file does not hold a record stream" % what, detail=dict(d, leading=payload[:24].hex()))
+            ok = False
+        rd, got, err = c.drain(lambda: RecordReader(path))
+        if err is not None:
+            ctx.violation(None, "%s: reading a file raised %s" % (what, type(err).__name__), detail=dict(d, exception=repr(err)[:300]))
+            ok = False
+        seen.extend(int(r.n) for r in got)
+        ctx.event("template_writer_files")
+    if sorted(seen) != list(range(len(records))):
+        ctx.violation(None, "%s: the files together do not hold every record exactly once" % what, detail=dict(detail, seen=sorted(seen)[:40], files=len(files)))
+        ok = False
+    del writer
+    shutil.rmtree(root, ignore_errors=True)
+    if ok:
+        ctx.cell("template-writer", codec, cls_name, shape)
+    ctx.nontrivial("template-writer", codec, cls_name, shape, case["s"])
